@@ -33,23 +33,25 @@ ASSUMPTIONS = ["project is checked for the rank id only when the caller passes r
 OPS = ["construct", "splitUniform", "splitEqual", "splitNonUniform", "splitUnEqual", "truediv", "floordiv", "swizzle",
        "swap", "flatten", "merge", "flatten_unflatten", "flatten_twice", "updateCoords", "updatePayloads", "deepcopy",
        "yaml", "fill_in_steps", "from_ragged", "split_swizzle", "split_swizzle", "flatten_elsewhere",
-       "estimate_by_fibers"]
+       "estimate_by_fibers", "flatten_deep", "flatten_deep"]
 
 
 @st.composite
 def cases(draw):
     op = draw(st.sampled_from(OPS))
     d = draw(st.sampled_from([1, 2, 2, 3, 3, 4]))
-    if op == "flatten_elsewhere":
+    if op in ("flatten_elsewhere", "flatten_deep"):
         d = 4
+    if op in ("flatten", "flatten_unflatten", "merge", "flatten_twice"):
+        d = draw(st.sampled_from([2, 3, 3, 4, 4]))      # (several levels need several ranks)
     c = {"op": op, "how": draw(st.sampled_from(["ref", "fiber", "fiber", "uncompressed", "yaml", "deepcopy", "random",
                                                  "populated"])),
          "sel": draw(st.lists(st.integers(0, 9), min_size=4, max_size=4)),
          "perm": list(draw(st.permutations([0, 1, 2, 3]))),
          "perm5": list(draw(st.permutations([0, 1, 2, 3, 4]))),
-         "style": draw(st.sampled_from(["tuple", "pair", "linear"])),
+         "style": draw(st.sampled_from(["pair", "linear", "tuple", "pair", "linear"])),
          "mstyle": draw(st.sampled_from(["absolute", "relative"])),
-         "levels": draw(st.sampled_from([1, 2, 3, 1, 2])),
+         "levels": draw(st.sampled_from([1, 2, 3, 3, 2])),
          "fmts": [draw(st.sampled_from(["C", "C", "U"])) for _ in range(d)],
          "mutable": draw(st.booleans()), "seed": draw(st.integers(0, 99))}
     shape = [draw(st.integers(1, 5 if d < 4 else 3)) for _ in range(d)]
@@ -132,6 +134,10 @@ def check(case, rec):
     t, auth = make_tensor(case)
     fmts, mut = list(case["fmts"]), case["mutable"]
     op, sel = case["op"], case["sel"]
+    deep = op == "flatten_deep"          # all four ranks into one, in one call
+    if deep:
+        op = ["flatten", "flatten_unflatten", "merge"][sel[3] % 3]
+        case = dict(case, levels=3)
     ashape = list(shape) if auth else None
     depth = sel[0] % d
     S = shape[depth]
@@ -182,6 +188,8 @@ def check(case, rec):
         if d < 2:
             return
         dd = sel[0] % (d - 1)
+        if case["levels"] >= d - 1:
+            dd = 0                      # all ranks below the top one: only possible from the top
         levels = min(case["levels"], d - 1 - dd)
         style = case["style"] if op != "merge" else case["mstyle"]
         if style == "relative":
@@ -229,6 +237,8 @@ def check(case, rec):
         else:
             r = t.flattenRanks(depth=dd, levels=levels, coord_style=style)
         where = f"{op}(depth={dd}, levels={levels}, {style})"
+        rec.cls(f"levels{levels}-{style}")
+        rec.cls("three-levels-pair-unequal-shapes", levels == 3 and style == "pair" and auth and shape[0] != shape[1])
         expect(r, where, ids=nid, shape=ns if auth else "skip", default=default, fmts=nf, mutable=mut)
         if op == "flatten_unflatten":
             coords_in_shape(r, where)
@@ -368,6 +378,7 @@ def check(case, rec):
         coords_in_shape(r, where)
         observe.rank_consistency(r, where)
     rec.cls(op)
+    rec.cls("flatten_deep", deep)
     rec.cls("estimated-shape", not auth)
     rec.cls("nonzero-default", default != 0)
     rec.cls("has-U", "U" in fmts)
